@@ -786,6 +786,10 @@ def chk_comp_string(acc, s, rna, with_seqs):
             r = call(lambda: str(seq.complement()))
             if r != ("ok", want_c):
                 _fail(acc, f"{fam} Sequence.complement: " + ("symbols" if r[0] == "ok" else f"raised {r[1]}"), case, r, want_c)
+            # complement of a view that is itself reversed: complement(rc(x)) is x reversed
+            r = call(lambda: str(seq.rc().complement()))
+            if r != ("ok", text[::-1]):
+                _fail(acc, f"{fam} Sequence.complement of a reverse-complemented view: " + ("symbols" if r[0] == "ok" else f"raised {r[1]}"), case, r, text[::-1])
 
 
 def chk_symbols(acc, name):
